@@ -124,6 +124,7 @@ def run_case(case):
         rings = {}            # src -> deque of SNs (model DPL)
         accepted = {}         # (src, sn) -> dict(frame, kind, rhl, forwarded, cancelled, delivered)
         srcpv = {}            # src -> (tst, nb) newest PV timestamp seen from that source; nb via beacon
+        srcpv_all = {}        # src -> every PV timestamp that source put on the air (a duplicate's PV is not stored by the receiver, a fresh packet's is)
         n_ind = n_sent = 0
         templ = {}
 
@@ -181,7 +182,7 @@ def run_case(case):
                             d = (got_de["tst"] - old_de["tst"]) % (1 << 32)
                             j = rec.get("to")
                             if got_de["addr"] == old_de["addr"] and 0 < d < (1 << 31) and isinstance(j, int) and srcpv.get(j, (None, False))[1] \
-                                    and (got_de["lat"], got_de["lon"]) == SRCPOS[j] and got_de["tst"] == srcpv[j][0]:
+                                    and (got_de["lat"], got_de["lon"]) == SRCPOS[j] and got_de["tst"] in srcpv_all.get(j, ()):
                                 ok = True
                                 labels.add("de-pv-refreshed")
                     if not ok:
@@ -209,6 +210,7 @@ def run_case(case):
                 if k == "beacon":
                     just["fresh"] = False    # beacons are never delivered or forwarded
                     srcpv[src] = (tst32(clock.now), True)
+                    srcpv_all.setdefault(src, set()).add(tst32(clock.now))
                 else:
                     ring = rings.setdefault(src, deque(maxlen=case["dpl"]))
                     if sn in ring:
@@ -228,6 +230,7 @@ def run_case(case):
                             labels.add("sn-wrapped")
                     old = srcpv.get(src, (None, False))
                     srcpv[src] = (tst32(clock.now), old[1])
+                    srcpv_all.setdefault(src, set()).add(tst32(clock.now))
             else:
                 just["fresh"] = False
                 labels.add("own-address")
